@@ -137,6 +137,23 @@ def _run_cvc5(smt2: str, timeout_ms: int, strings=True):
         os.unlink(path)
 
 
+def _run_z3_cli(smt2: str, timeout_ms: int) -> str:
+    exe = "/usr/bin/z3"
+    if not os.path.exists(exe):
+        return "unavailable"
+    with tempfile.NamedTemporaryFile("w", suffix=".smt2", delete=False) as f:
+        f.write(smt2)
+        path = f.name
+    try:
+        p = subprocess.run([exe, f"-T:{max(1, timeout_ms // 1000)}", path], capture_output=True, text=True, timeout=timeout_ms / 1000 + 5)
+        first = (p.stdout.strip().splitlines() or ["unknown"])[0].strip()
+        return first if first in ("sat", "unsat") else "unknown"
+    except Exception:      # noqa: BLE001
+        return "unknown"
+    finally:
+        os.unlink(path)
+
+
 def discharge(ob: Obligation, use_cvc5=True, z3_timeout=None, cvc5_timeout=None, retry=True) -> Obligation:
     t0 = time.time()
     dump = os.environ.get("PYVC_DUMP")
@@ -192,6 +209,14 @@ def discharge(ob: Obligation, use_cvc5=True, z3_timeout=None, cvc5_timeout=None,
         if ob.expect_sat and _small_universe_witness(ob):
             ob.time_s = time.time() - t0
             return ob
+        verdict = _run_z3_cli(ob.smt2(), 8000 if FAST else 30000)      # the Debian z3 4.8.12 binary: another version, other heuristics
+        want_good = "sat" if ob.expect_sat else "unsat"
+        if verdict == want_good:
+            ob.status, ob.backend = "discharged", "z3 4.8.12 (cli)"
+            ob.time_s = time.time() - t0
+            return ob
+        if verdict in ("sat", "unsat"):
+            ob.detail += " | z3 4.8.12 (cli): " + verdict + " (not taken as a refutation: no model is read back)"
         if use_cvc5:
             verdict, out = _run_cvc5(ob.smt2(), cvc5_timeout or CVC5_TIMEOUT_MS)
             want_good = "sat" if ob.expect_sat else "unsat"
